@@ -623,14 +623,75 @@ def check_c08(pid, tier, replay=None):
                       "length classes 0,<16,16k,tail,big incl. CBC len=0; any fault or damaged canary is a violation with the op as replay")
 
 
+SCRUB_RANK = {"Z": 0, "T": 1, "ZD": 2, "TD": 3, "ZD2": 4, "ZD2X": 5, "FAIL": 9}
+C14_THMS = ["IsalVerif.Scrub.checkScrub_sound", "IsalVerif.Props.C14.c14", "IsalVerif.Props.C14.c14_Z",
+            "IsalVerif.Props.C14.c14_no_declass", "IsalVerif.Props.C14.c14_tail",
+            "IsalVerif.GenProps.Scrub.all_objects", "IsalVerif.GenProps.Scrub.dispatch_ok",
+            "IsalVerif.GenProps.Scrub.vtab_summaries", "IsalVerif.GenProps.Scrub.counts"]
+
+
 def check_c14(pid, tier, replay=None):
+    """SAFE_DATA: verified 'scrubbed at every exit' certificate checker (engine Scrub) over every function of the AES
+    objects as translated from the current build + dynamic capture (zmm0-31, 64 KiB dead stack) after every AES call"""
+    import subprocess, build_repo
     chk = vlib.Check(pid, tier)
+    if not replay:
+        b = build_repo.get_build("default")
+        rep_path = os.path.join(b, "scrub_report.json")
+        r = subprocess.run(["python3", os.path.join(vlib.VERIF, "tools", "gen_scrub.py"), "--build", b,
+                            "--out", os.path.join(vlib.LEAN, "IsalVerif"), "--report", rep_path], capture_output=True, text=True)
+        if r.returncode:
+            raise RuntimeError("gen_scrub failed: " + (r.stderr or r.stdout)[-2000:])
+        rep = json.load(open(rep_path))
+        pf = rep["per_function"]
+        expected = json.load(open(os.path.join(vlib.VERIF, "tools", "scrub_expected.json")))
+        worse = {}
+        for fn, v in pf.items():
+            want = expected.get(fn)
+            if want is None:
+                if v["rule"] == "FAIL":
+                    worse[fn] = ("(new function)", v)
+            elif SCRUB_RANK.get(v["rule"], 9) > SCRUB_RANK.get(want, 9):
+                worse[fn] = (want, v)
+        known_imprecise = sorted(fn for fn, v in pf.items() if v["rule"] == "FAIL" and expected.get(fn) == "FAIL")
+        chk.oblige("translator: every AES function is accepted under the rule recorded for the unchanged tree (tools/scrub_expected.json) or a stricter one",
+                   not worse, "; ".join("%s: %s -> %s (%s)" % (fn, w, v["rule"], (v.get("fail") or "")[:80]) for fn, (w, v) in list(worse.items())[:4]))
+        lean_failed = vlib.lean_obligations(chk, "IsalVerif.Props.C14", C14_THMS)
+        vf = subprocess.run(["python3", os.path.join(vlib.VERIF, "tools", "vecform.py"), b], capture_output=True, text=True)
+        chk.oblige("instruction-table validation (tools/vecform.py): vector/GPR/flag/opmask write sets, zeroing idioms, copies", vf.returncode == 0,
+                   vf.stdout.strip()[-300:])
+        if vf.returncode != 0:
+            lean_failed.append(("vecform", vf.stdout[-1500:]))
+        chk.cov["scrub_model"] = {k: rep[k] for k in ("objects", "functions", "instructions", "records", "rules")}
+        chk.cov["functions_outside_the_static_proof"] = known_imprecise
+    else:
+        worse, lean_failed = {}, []
+    # dynamic capture: concrete witnesses, and the only cover of the functions the analysis cannot handle
     results = _mode_sweep(chk, tier, [{"VERIF_CAPTURE": "1"}], ("C14-",), want_hash=False)
+    nv0 = len(chk.violations) + len(chk.known_hit)
     total = _report_mode_results(chk, results, ("C14-",))
+    found = len(chk.violations) + len(chk.known_hit) > nv0
+    if replay:
+        return 1 if found else 0
+    if not found:
+        for fn, (want, v) in list(worse.items())[:12]:
+            chk.violation("%s is no longer accepted as scrubbed (rule %s -> %s)" % (fn, want, v["rule"]),
+                          {"kind": "obligation", "obligation": "checkScrub %s under rule %s" % (fn, want), "detail": v.get("fail"),
+                           "object": v.get("object"), "broken_obligations": [f[0] for f in lean_failed]}, no_input=True, match={"fn": fn})
+        if not worse:
+            for name, detail in lean_failed:
+                chk.violation("Lean obligation no longer checks: %s" % name, {"kind": "obligation", "obligation": name, "detail": detail}, no_input=True)
     chk.cov["evaluations"] = total
     chk.cov["distinct_nontrivial"] = len(results)
-    chk.trusted = ["harness/tramp.asm + sens.h: capture of zmm0-31 and 64 KiB dead stack right after the return; sensitive values from the Lean-validated schedules"]
-    return chk.finish(level="proof", rule="every AES family entry point over seeded length classes; capture after return")
+    chk.trusted = ["Lean 4.33.0 kernel; axioms allowed: propext, Classical.choice, Quot.sound",
+                   "translator tools/gen_scrub.py + instruction tables tools/x86tab.py, tools/scrubtab.py (objdump decoding; validated dynamically by insnform.py / vecform.py)",
+                   "signature table in tools/scrub_core.py: which argument registers point to key material, and for which entry points aesenclast/pclmulqdq results may be declassified (ciphertext / GHASH of ciphertext)",
+                   "taint-instrumented semantics: one taint bit per 128-bit low part and per upper part of each vector register, per GPR/flags/opmask, per stack byte; frame assumption of X86Abs",
+                   "6 functions (_aes_gcm_pre_{128,256} and their aliases/wrappers: a local schedule array cleared by a volatile byte loop) are outside the static proof and covered by the dynamic capture only",
+                   "harness/tramp.asm + sens.h: capture of zmm0-31, k0-7 and 64 KiB of dead stack right after the return; needles = raw key, both schedules, H and its powers, encrypted tweak"]
+    chk.assumptions = ["SAFE_DATA build (default)", "GPRs are not covered by the property (sse/avx XTS return E(k2,tweak)-derived bits in rax: reported, not a violation)"]
+    return chk.finish(level="proof", rule="static: every function of the 68 AES objects, every path to every exit (certificates re-checked by decide +kernel); "
+                      "dynamic: every AES family entry point over seeded length classes, capture after return")
 
 
 def big_sweep(chk, modes, replay=None):
